@@ -315,7 +315,7 @@ func dateParse(date string) float64 {
 		return math.NaN()
 	}
 
-	epoch := float64(time.AddDate(shift, 0, 0).UnixMilli())
+	epoch := float64(time.UTC().AddDate(shift, 0, 0).UnixMilli())
 	if math.Abs(epoch) > maxTimeValue {
 		return math.NaN()
 	}
